@@ -1,4 +1,4 @@
-import Rare.Proofs.C09Print
+import Rare.Proofs.C09C10
 /-!
 Property C09 – template syntax: literals, escapes, quotes and nesting parse as documented.
 
@@ -76,36 +76,44 @@ theorem compile_never_out_of_fuel (reg : Registry) (hreg : NoFuelMsg reg) (t : L
     compile reg false t ≠ .error "out of fuel" :=
   compileF_ne_out_of_fuel reg hreg (t.length + 1) t (by omega) _ (by omega)
 
-/- Full statement of `print_compile` (for both optimiser settings):
-     ∀ reg fn opt σ e, AdmissibleTop e → RegOk reg fn e →
-       ∃ stages, compile reg opt (printTop σ e) = .ok (stages, []) ∧
-         ∀ ctx, (buildKey stages).run ctx = .ok (evalTree (envOf ctx fn) e)
-   Proved below with the optimiser off (`opt = false`).  Missing for `opt = true`: soundness of
-   `optimize` on the stages of pure functions (constant folding keeps the value) – that is property
-   C10's `optimize_sound`; the optimised path is covered here by the correspondence run only
-   (`tree 1 …` cases). -/
+/-- **Print/compile round trip, optimiser on or off.**  An expression tree printed with ANY admissible
+    style (white-space runs after `{`, before `}` and between arguments; literal arguments quoted or –
+    where legal – bare) compiles without errors and evaluates exactly as the tree dictates, in every
+    context – with static optimisation enabled (`opt = true`, rare's default) as well as disabled.
 
-/-- An expression tree printed with ANY admissible style (white-space runs after `{`, before `}` and
-    between arguments; literal arguments quoted or – where legal – bare) compiles without errors and
-    evaluates exactly as the tree dictates, in every context. -/
-theorem print_compile_partial (reg : Registry) (fn : List Char → List Bytes → Bytes) (σ : Style) (e : C09.Expr)
+    The registry may be anything as long as every function *called in the tree* is registered with a
+    builder that `Implements` the tree's meaning of it at the call's arity: for argument stages that
+    evaluate it returns, without compile error, a stage that evaluates to `fn f` of the argument values
+    (strict like `pureBuilder`, lazy like `{if}`, constant-folding … – see `Rare/Proofs/C09C10.lean`).
+    Builders of other names are unconstrained (they may panic, be unmodelled, …).
+
+    The optimiser-on case composes the optimiser-off round trip with C10: `optimize` returns because
+    stages that evaluate in every context can be probed (`optimize_ok_of_run`), and C10's
+    `optimize_preserves` says the optimised stages build the same key – at every nesting level. -/
+theorem print_compile (reg : Registry) (fn : List Char → List Bytes → Bytes) (opt : Bool) (σ : Style) (e : C09.Expr)
+    (ha : AdmissibleTop e) (hreg : RegSem reg fn e) :
+    ∃ stages, compile reg opt (printTop σ e) = .ok (stages, []) ∧
+      ∀ ctx, (buildKey stages).run ctx = .ok (evalTree (envOf ctx fn) e) :=
+  printTop_ok reg fn opt σ e ha hreg
+
+/-- The round trip for registries of syntactically pure builders (`pureBuilder`, the harness's probe
+    registry) with the optimiser off – the statement proved before the composition with C10; now a
+    special case of `print_compile`. -/
+theorem print_compile_noopt (reg : Registry) (fn : List Char → List Bytes → Bytes) (σ : Style) (e : C09.Expr)
     (ha : AdmissibleTop e) (hreg : RegOk reg fn e) :
     ∃ stages, compile reg false (printTop σ e) = .ok (stages, []) ∧
-      ∀ ctx, (buildKey stages).run ctx = .ok (evalTree (envOf ctx fn) e) := by
-  have key : ∀ e : C09.Expr, Admissible e → RegOk reg fn e →
-      ∃ stages, compile reg false (argString σ e) = .ok (stages, []) ∧
-        ∀ ctx, (buildKey stages).run ctx = .ok (evalTree (envOf ctx fn) e) := by
-    intro e ha hreg
-    obtain ⟨st, h1, h2⟩ := arg_ok reg fn e σ ((argString σ e).length + 1 + depth e) ha hreg (by omega)
-    refine ⟨st, ?_, fun ctx => (h2 ctx).2⟩
-    rw [← compile_fuel_suffices reg false _ (depth e)]; exact h1
-  cases e with
-  | lit s =>
-    obtain ⟨st, h1, h2⟩ := compileF_escapeLit (escapeLit s).length reg false s
-    exact ⟨st, h1, fun ctx => by simpa [evalTree] using h2 ctx⟩
-  | group n => exact key _ ha hreg
-  | key k => exact key _ ha hreg
-  | call f args => exact key _ ha hreg
+      ∀ ctx, (buildKey stages).run ctx = .ok (evalTree (envOf ctx fn) e) :=
+  print_compile reg fn false σ e ha (regSem_of_regOk reg fn e hreg)
+
+/-- Optimiser on and off agree on every printed tree (C10's `optimize_sound` specialised; stated here so
+    that the two halves of the round trip are visibly the same value). -/
+theorem print_compile_opt_agrees (reg : Registry) (fn : List Char → List Bytes → Bytes) (σ : Style) (e : C09.Expr)
+    (ha : AdmissibleTop e) (hreg : RegSem reg fn e) :
+    ∃ s1 s0, compile reg true (printTop σ e) = .ok (s1, []) ∧ compile reg false (printTop σ e) = .ok (s0, []) ∧
+      ∀ ctx, (buildKey s1).run ctx = (buildKey s0).run ctx := by
+  obtain ⟨s1, h1, r1⟩ := print_compile reg fn true σ e ha hreg
+  obtain ⟨s0, h0, r0⟩ := Rare.C10.optimize_sound reg (printTop σ e) s1 [] h1
+  exact ⟨s1, s0, h1, h0, fun ctx => (r0 ctx).symm⟩
 
 /-! ### Non-vacuity: the hypotheses are satisfiable on concrete, non-trivial values -/
 
